@@ -69,7 +69,7 @@ func (c *concretizer) ask(t *smt.Term) (string, bool) {
 		c.giveUp("model too large to extract")
 		return "", false
 	}
-	v, err := c.s.Eval(t.String())
+	v, err := c.s.Eval(t.SMT())
 	if os.Getenv("GOVC_DEBUG") != "" {
 		fmt.Fprintf(os.Stderr, "ask %s -> %q %v\n", trunc(t.String(), 120), v, err)
 	}
@@ -223,7 +223,7 @@ func (c *concretizer) conc(st *State, v Value, T types.Type, depth int) string {
 					if n <= b && cp <= n+64 {
 						break
 					}
-					if c.s.CheckWith([]string{fmt.Sprintf("(bvule %s #x%016x)", x.Len.String(), b), fmt.Sprintf("(bvule %s (bvadd %s #x0000000000000040))", x.Cap.String(), x.Len.String())}) {
+					if c.s.CheckWith([]string{fmt.Sprintf("(bvule %s #x%016x)", x.Len.SMT(), b), fmt.Sprintf("(bvule %s (bvadd %s #x0000000000000040))", x.Cap.SMT(), x.Len.SMT())}) {
 						c.restart = true
 						return "nil"
 					}
@@ -500,7 +500,7 @@ func (e *Exec) BuildReplay(o *Obligation, script string) *ReplayPlan {
 	for _, bound := range []uint64{8, 64, 600, 5000, 70000} {
 		var as []string
 		for _, t := range sizeTerms {
-			as = append(as, fmt.Sprintf("(bvule %s #x%016x)", t.String(), bound))
+			as = append(as, fmt.Sprintf("(bvule %s #x%016x)", t.SMT(), bound))
 		}
 		if len(as) == 0 || sess.CheckWith(as) {
 			break
@@ -741,24 +741,24 @@ func (c *concretizer) repairHashes(emitted []*smt.Term, script string, plan *Rep
 				continue
 			}
 			var link []string
-			link = append(link, fmt.Sprintf("(= %s #x%016x)", ctx.App("seq_len", smt.BV(64), arg).String(), n))
+			link = append(link, fmt.Sprintf("(= %s #x%016x)", ctx.App("seq_len", smt.BV(64), arg).SMT(), n))
 			for i := uint64(0); i < n; i++ {
 				rt := sn.s.Read(ctx.BVC(i, 64))
 				if smt.HasQuant(rt) || !symsDeclared(rt, script) {
 					continue
 				}
-				link = append(link, fmt.Sprintf("(= %s %s)", ctx.App("seq_at8", smt.BV(8), arg, ctx.BVC(i, 64)).String(), rt.String()))
+				link = append(link, fmt.Sprintf("(= %s %s)", ctx.App("seq_at8", smt.BV(8), arg, ctx.BVC(i, 64)).SMT(), rt.SMT()))
 			}
 			c.s.CheckWith(link)
 			break
 		}
 		buf := make([]byte, n)
 		var as []string
-		as = append(as, fmt.Sprintf("(= %s #x%016x)", ctx.App("seq_len", smt.BV(64), arg).String(), n))
+		as = append(as, fmt.Sprintf("(= %s #x%016x)", ctx.App("seq_len", smt.BV(64), arg).SMT(), n))
 		for i := uint64(0); i < n; i++ {
 			at := ctx.App("seq_at8", smt.BV(8), arg, ctx.BVC(i, 64))
 			buf[i] = byte(c.askBV(at, 0))
-			as = append(as, fmt.Sprintf("(= %s #x%02x)", at.String(), buf[i]))
+			as = append(as, fmt.Sprintf("(= %s #x%02x)", at.SMT(), buf[i]))
 		}
 		var dg []byte
 		if app.Name == "spec_SHA256" {
@@ -768,9 +768,9 @@ func (c *concretizer) repairHashes(emitted []*smt.Term, script string, plan *Rep
 			h := sha512.Sum384(buf)
 			dg = h[:]
 		}
-		as = append(as, fmt.Sprintf("(= %s #x%016x)", ctx.App("seq_len", smt.BV(64), app).String(), uint64(len(dg))))
+		as = append(as, fmt.Sprintf("(= %s #x%016x)", ctx.App("seq_len", smt.BV(64), app).SMT(), uint64(len(dg))))
 		for i, b := range dg {
-			as = append(as, fmt.Sprintf("(= %s #x%02x)", ctx.App("seq_at8", smt.BV(8), app, ctx.BVC(uint64(i), 64)).String(), b))
+			as = append(as, fmt.Sprintf("(= %s #x%02x)", ctx.App("seq_at8", smt.BV(8), app, ctx.BVC(uint64(i), 64)).SMT(), b))
 		}
 		if c.s.CheckWith(as) {
 			done++
